@@ -1,0 +1,119 @@
+//go:build verif
+
+// Contracts for the deductive verification of this package (tool: /verif).
+// This file is only compiled with the build tag "verif". It contains
+//   - the executable prelude of the contract language (old, forall, ...),
+//   - spec functions (pure Go) used inside contracts,
+//   - the contracts themselves, as //@ comment blocks keyed by function,
+//   - lemma functions (ghost code verified like any other function).
+// Nothing here is reachable from the production build.
+
+package mailbox
+
+// ---- contract prelude ------------------------------------------------------
+
+func old[T any](x T) T              { return x }
+func implies(a, b bool) bool        { return !a || b }
+func iff(a, b bool) bool            { return a == b }
+func ite[T any](c bool, a, b T) T   { if c { return a }; return b }
+func is[T any](m any) bool          { _, ok := m.(T); return ok }
+func as[T any](m any) T             { v, _ := m.(T); return v }
+func isnil(x any) bool              { return x == nil }
+func sameslice(a, b []byte) bool {
+	return len(a) == len(b) && (len(a) == 0 || &a[0] == &b[0])
+}
+func fresh(x any) bool { return x != nil }
+
+// held / rheld: the calling goroutine holds the mutex (ghost; not executable)
+func held(m any) bool   { return true }
+func rheld(m any) bool  { return true }
+func unheld(m any) bool { return true }
+
+// elems / entries: frame designators for modifies clauses
+func elems[T any](s []T) int               { return len(s) }
+func entries[K comparable, V any](m map[K]V) int { return len(m) }
+func forall(lo, hi int, p func(i int) bool) bool {
+	for i := lo; i < hi; i++ {
+		if !p(i) {
+			return false
+		}
+	}
+	return true
+}
+
+// ---- spec functions --------------------------------------------------------
+
+func seqeq(a, b []byte) bool {
+	if len(a) != len(b) {
+		return false
+	}
+	for i := range a {
+		if a[i] != b[i] {
+			return false
+		}
+	}
+	return true
+}
+
+// be32: big-endian value of the four bytes b[1..4].
+func be32at1(b []byte) uint32 {
+	return uint32(b[1])<<24 | uint32(b[2])<<16 | uint32(b[3])<<8 | uint32(b[4])
+}
+
+// ---- contracts -------------------------------------------------------------
+
+//@ func NewMsgData(version uint8, payload []byte) (m *MsgData)
+//@   props C19 C15
+//@   ensures fresh(m) && m.version == version && sameslice(m.Payload, payload)
+
+//@ func (m *MsgData) Serialize() (out []byte, err error)
+//@   props C19 C07
+//@   requires m != nil && len(m.Payload) < 1<<32
+//@   ensures err == nil
+//@   ensures len(out) == 5 + len(m.Payload)
+//@   ensures out[0] == m.version && be32at1(out) == uint32(len(m.Payload))
+//@   ensures forall(0, len(m.Payload), func(i int) bool { return out[5+i] == m.Payload[i] })
+
+//@ func (m *MsgData) Deserialize(b []byte) (err error)
+//@   props C19 C07
+//@   requires m != nil
+//@   modifies m.version, m.Payload
+//@   ensures (err == nil) == (len(b) >= 5 && len(b) >= 5 + int(be32at1(b)))
+//@   ensures implies(err == nil, m.version == b[0])
+//@   ensures implies(err == nil && be32at1(b) > 0, sameslice(m.Payload, b[5:5+int(be32at1(b))]))
+//@   ensures implies(err == nil && be32at1(b) == 0, sameslice(m.Payload, old(m.Payload)))
+
+// ---- lemmas ----------------------------------------------------------------
+
+// lemmaMsgDataRoundTrip: a control message deserialises (into a fresh
+// receiver) from its own serialisation to an equal value.
+func lemmaMsgDataRoundTrip(version uint8, payload []byte) (m2 *MsgData, err error) {
+	m := NewMsgData(version, payload)
+	b, _ := m.Serialize()
+	m2 = NewMsgData(ProtocolVersion, nil)
+	err = m2.Deserialize(b)
+	return
+}
+
+//@ func lemmaMsgDataRoundTrip(version uint8, payload []byte) (m2 *MsgData, err error)
+//@   props C19
+//@   requires len(payload) < 1<<32
+//@   ensures err == nil && m2.version == version && seqeq(m2.Payload, payload)
+
+// lemmaMsgDataReencode: bytes that deserialise successfully re-serialise to a
+// message that deserialises to the same value again.
+func lemmaMsgDataReencode(b []byte) (m1, m2 *MsgData, e1, e2 error) {
+	m1 = NewMsgData(ProtocolVersion, nil)
+	e1 = m1.Deserialize(b)
+	if e1 != nil {
+		return
+	}
+	b2, _ := m1.Serialize()
+	m2 = NewMsgData(ProtocolVersion, nil)
+	e2 = m2.Deserialize(b2)
+	return
+}
+
+//@ func lemmaMsgDataReencode(b []byte) (m1, m2 *MsgData, e1, e2 error)
+//@   props C19
+//@   ensures implies(e1 == nil, e2 == nil && m2.version == m1.version && seqeq(m2.Payload, m1.Payload))
